@@ -28,6 +28,11 @@ CHECKS = {
    text="Every schema of the closedness fragment (literals of <=3 members from a 23-30 member alphabet of regular/optional/required fields, patterns, ..., embeddings of literals / close() / definitions; reached open, via close(), via #S and via #T.f; conjunctions of 2-3) is unified with every data struct of a bounded set (incl. hidden/definition fields) by the real evaluator; the accept/reject verdict and the resulting field set are compared with the model for every pair.",
    note="Trusts src/model/structs.go. One fragment is unclaimed (struct-valued field next to an embedded definition: spec example and implementation disagree, property silent).",
    ref="DESIGN.md §3 C05"),
+ "C06": dict(engine="enum",
+   technique="bounded-exhaustive enumeration of operand pairs x operators and of literal spellings on the real evaluator against math/big and an independent literal grammar",
+   text="Every pair from a boundary operand set (2^31..2^64, 10^k around 16/34/40/77 digits, repdigits, long fractions, int and float spellings) under every arithmetic/comparison operator and div/mod/quo/rem is evaluated by the real evaluator and compared with exact big.Rat arithmetic (nearest-34-digit rule for inexact float results and /); every literal spelling up to the bound that the spec grammar allows must evaluate to the spec value and kind, and printed results must read back as the same number.",
+   note="Trusts math/big and src/model/numbers.go. 34 significant digits is taken as the documented precision; ties may round either way. Known literal-grammar deviations are listed in known_findings.jsonl.",
+   ref="DESIGN.md §3 C06"),
  "C09": dict(engine="enum",
    technique="bounded-exhaustive enumeration of token strings / strings x quoting forms / literal spellings on the real scanner, parser and literal package (explicit-state, no sampling)",
    text="Every token string up to the length bound, every string over a hostile rune alphabet under every quoting form and every literal-candidate spelling up to the bound is executed on the real code and checked against position invariants, Unquote(Quote(s))==s and three-way validity agreement. Exhaustive within the stated alphabet/bound; says nothing beyond it.",
